@@ -7,9 +7,12 @@
     assembly and the key conversion are the hand-written model Qib.Backend.QobjModel, tied to the code
     by the correspondence run of checks/C18.py.
 
-    The theorems marked (*fix*) hold for the code with proposed_fixes/C18-*.diff applied; against the
-    unrepaired source their proofs do not compile ([gen_scope] = ScopeLast, [gen_ctrl_std_checked] =
-    false) and the check reports the concrete failing inputs of the [_refuted] lemmas below. *)
+    The theorem marked (*fix*) holds for the code with the range-check repair (commit 35ca011,
+    proposed_fixes/C18-range-check-all-instructions.diff); against a source whose final check reads the
+    loop variable ([gen_scope] = ScopeLast) its proof does not compile and the check reports the
+    concrete failing inputs of the [_refuted] lemmas below.  The ctrl_state repair is NOT applied
+    (known finding): the statement that depends on it carries the guard explicitly and the guard
+    disappears when [gen_ctrl_std_checked] = true. *)
 From Qib Require Import Backend.QobjModel Backend.QobjProofs.
 From Coq Require Import Sorting.Sorted.
 From Run Require Import GenQobj.
@@ -81,6 +84,27 @@ Proof.
   split; [assumption|]. apply (as_qasm_own gen_vt). assumption.
 Qed.
 Print Assumptions C18_instructions_are_the_circuit.
+
+(** 3b. the name says what the gate is: a serialised library instruction carries the OpenQASM name of
+    the operation it is ([kind_of]: which standard gate / controlled gate / control instruction), and
+    that name determines the operation.  Guard (the KNOWN FINDING below): every controlled gate has
+    the all-ones control state - automatic when ControlledGate.as_qasm itself refuses other control
+    states ([gen_ctrl_std_checked] = true).  User-defined gates ([Raw]) report whatever they like. *)
+Theorem C18_name_says_what_the_gate_is :
+  forall g g' q q',
+    as_qasm gen_vt g = QOk q -> as_qasm gen_vt g' = QOk q' ->
+    is_raw g = false -> is_raw g' = false ->
+    (gen_ctrl_std_checked = true \/ (all_std g = true /\ all_std g' = true)) ->
+    (exists k, kind_of g = Some k /\ q_name q = name_of_kind k) /\
+    (q_name q = q_name q' -> kind_of g = kind_of g').
+Proof.
+  intros g g' q q' E E' R R' G.
+  assert (S : all_std g = true /\ all_std g' = true).
+  { destruct G as [C|S]; [|exact S]. split; eapply (checked_all_std gen_vt); try eassumption; exact C. }
+  destruct S as [S S']. split; [apply (as_qasm_name gen_vt); assumption|].
+  intros N. apply (same_name_same_operation gen_vt g g' q q'); assumption.
+Qed.
+Print Assumptions C18_name_says_what_the_gate_is.
 
 Theorem C18_nonstandard_control_refuted :
   exists q, as_qasm unrepaired_vt (Ctrl [(0, 0)] false (Plain KZ (0, 1))) = QOk q /\ q_name q = n_cz.
@@ -154,9 +178,9 @@ Print Assumptions C18_accept_only_executable.
 
 (** KNOWN FINDING (not repaired: tests/test_gates.py pins as_qasm()['name'] == 'cx' for a
     |0>-controlled X): a gate controlled on another state than |1...1> is serialised under the
-    name of the standard controlled gate - see C18_nonstandard_control_refuted above. The full
-    statement "an accepted instruction says what the gate is" therefore carries the guard
-    "every controlled gate has the all-ones control state". *)
+    name of the standard controlled gate - see C18_nonstandard_control_refuted above. The
+    statement "an instruction says what the gate is" (C18_name_says_what_the_gate_is) therefore
+    carries the guard "every controlled gate has the all-ones control state". *)
 
 (** non-vacuity: the test-suite's circuit is accepted on the simulator; a circuit with a defect in
     the middle is refused; "within the limit" is an upper bound (non-positive shots are accepted by
